@@ -817,7 +817,7 @@ func (c *cenv) call(n *ast.CallExpr) Val {
 			nameV := c.eval(n.Args[0])
 			callee, _ := e.litContent(nameV.T)
 			var cj []string
-			for i := c.post.loopMark; i < len(c.post.calls); i++ {
+			for i := c.markFor(callee); i < len(c.post.calls); i++ {
 				r := c.post.calls[i]
 				if lastName(r.Name) != callee {
 					continue
@@ -836,7 +836,7 @@ func (c *cenv) call(n *ast.CallExpr) Val {
 			nameV := c.eval(n.Args[0])
 			callee, _ := e.litContent(nameV.T)
 			cnt := 0
-			for i := c.post.loopMark; i < len(c.post.calls); i++ {
+			for i := c.markFor(callee); i < len(c.post.calls); i++ {
 				if lastName(c.post.calls[i].Name) == callee {
 					cnt++
 				}
@@ -920,7 +920,7 @@ func (c *cenv) call(n *ast.CallExpr) Val {
 				fmt.Sscanf(c.eval(n.Args[2]).T, "%d", &nth)
 			}
 			var recs []CallRec
-			for i := c.post.loopMark; i < len(c.post.calls); i++ {
+			for i := c.markFor(callee); i < len(c.post.calls); i++ {
 				if lastName(c.post.calls[i].Name) == callee {
 					recs = append(recs, c.post.calls[i])
 				}
@@ -1116,6 +1116,15 @@ func (c *cenv) quantifier(kind string, n *ast.CallExpr) Val {
 	return termVal(types.Typ[types.Bool], sBool, fmt.Sprintf("(%s ((%s %s)) %s)", q, bv, s, body))
 }
 
+// markFor: calls of a name that cannot occur inside any loop entered on this path are counted over the whole
+// path; for the others the log is cut at the last loop entry (their number inside the loop is unknown).
+func (c *cenv) markFor(callee string) int {
+	if c.post.loopNames == nil || !c.post.loopNames[callee] {
+		return 0
+	}
+	return c.post.loopMark
+}
+
 func (c *cenv) kvOp(name string, n *ast.CallExpr) Val {
 	e := c.e
 	m := c.eval(n.Args[0])
@@ -1239,10 +1248,32 @@ func (c *cenv) goCall(fn *ssa.Function, recv *Val, argx []ast.Expr) Val {
 		}
 		args = append(args, v)
 	}
-	_ = off
+	args = c.packVariadic(sig, args, off)
 	return c.runSpec(func(st *State) []Out {
 		return e.dispatch(st, fn, args, nil, fn.Signature.Results(), 0, nil)
 	}, fn.String())
+}
+
+// packVariadic: f(a, b, c) for f(xs ...T) passes the slice []T{a, b, c}, as the compiled call does
+// (a contract never spreads an existing slice with "...": not supported).
+func (c *cenv) packVariadic(sig *types.Signature, args []Val, off int) []Val {
+	if !sig.Variadic() {
+		return args
+	}
+	fixed := off + sig.Params().Len() - 1
+	if len(args) < fixed {
+		return args
+	}
+	st := sig.Params().At(sig.Params().Len() - 1).Type()
+	sl, ok := st.(*types.Slice)
+	if !ok {
+		return args
+	}
+	pack := Val{K: kArr, Typ: st, Sort: c.e.sortOfT(st)}
+	for _, a := range args[fixed:] {
+		pack.Elems = append(pack.Elems, c.coerce(a, sl.Elem()))
+	}
+	return append(append([]Val(nil), args[:fixed]...), pack)
 }
 
 func (c *cenv) externCall(o *types.Func, argx []ast.Expr) Val {
@@ -1256,6 +1287,7 @@ func (c *cenv) externCall(o *types.Func, argx []ast.Expr) Val {
 		}
 		args = append(args, v)
 	}
+	args = c.packVariadic(sig, args, 0)
 	name := o.FullName()
 	return c.runSpec(func(st *State) []Out {
 		if f, ok := intrinsicsByName[name]; ok {
